@@ -235,20 +235,21 @@ EventFails(d, e) ==
            ELSE Tag("o1.", ObsAll(After(d, e), e.o1)) \cup Tag("o2.", ObsAll(After(d, e), e.o2)))
 
 \* signatures of data-plane events that known findings are about
-RECURSIVE HasDot(_)
-HasDot(bytes) == bytes # <<>> /\ (Head(bytes) = 46 \/ HasDot(Tail(bytes)))
-KeyHasDot(tbl, it) == \E a \in KeyAttrs(tbl) : a \in DOMAIN it /\ it[a].t \in {"S", "B"} /\ HasDot(Pay(it[a]))
-StoredEmpty(d, e) == \E c \in DOMAIN d : \E t \in DOMAIN d[c].tables : \E it \in d[c].tables[t].items : ItemHasEmpty(it)
+\* the known deviation of the key encoding: two DIFFERENT key tuples whose hash + "." + range byte strings coincide
+KeyEnc(tbl, it) == IF tbl.range.some THEN Pay(it[tbl.hash.n]) \o <<46>> \o Pay(it[tbl.range.n]) ELSE Pay(it[tbl.hash.n])
+Encodable(tbl, it) == KeyTypeOK(tbl, it) /\ tbl.hash.ty \in {"S"} /\ (tbl.range.some => tbl.range.ty \in {"S"})
+KeysCollide(tbl, its) == \E x, y \in its : Encodable(tbl, x) /\ Encodable(tbl, y) /\ ~KeyEq(tbl, x, y) /\ KeyEnc(tbl, x) = KeyEnc(tbl, y)
+StoredEmpty(d, e) == \E c \in DOMAIN d : \E tn \in DOMAIN d[c].tables : \E it \in d[c].tables[tn].items : ItemHasEmpty(it)
 OpSig0(d, e) ==
   IF e.op \in {"PutItem", "GetItem", "UpdateItem", "DeleteItem"} /\ e.t \in DOMAIN d[e.c].tables
   THEN LET tbl == d[e.c].tables[e.t]
            k == IF e.op = "PutItem" THEN e.item ELSE e.key
-       IN (IF KeyHasDot(tbl, k) \/ (\E it \in tbl.items : KeyHasDot(tbl, it)) THEN { <<"key-contains-dot">> } ELSE {})
+       IN (IF KeysCollide(tbl, tbl.items \cup {k}) THEN { <<"key-encodings-collide">> } ELSE {})
           \cup (IF e.op = "UpdateItem" /\ \E i \in DOMAIN AllTargets(e.upd) :
                       ResolveOK(AllTargets(e.upd)[i], e.names) /\ Resolve(AllTargets(e.upd)[i], e.names)[1].n \in KeyAttrs(tbl)
                  THEN { <<"update-targets-key-attribute">> } ELSE {})
-  ELSE IF e.op = "Scan" /\ e.t \in DOMAIN d[e.c].tables /\ (\E it \in d[e.c].tables[e.t].items : KeyHasDot(d[e.c].tables[e.t], it))
-  THEN { <<"key-contains-dot">> }
+  ELSE IF e.op = "Scan" /\ e.t \in DOMAIN d[e.c].tables /\ KeysCollide(d[e.c].tables[e.t], d[e.c].tables[e.t].items)
+  THEN { <<"key-encodings-collide">> }
   ELSE IF e.op = "Query" /\ e.t \in DOMAIN d[e.c].tables
   THEN LET tbl == d[e.c].tables[e.t]
            tg == Target(tbl, e.index)
